@@ -108,7 +108,9 @@ def _pure_call(c: ast.Call) -> bool:
     n = norm.call_name(c)
     if n in _cfg.PURE_METHODS or n in _PURE_FUNCS or n in ("mean", "percentile"):
         return True
-    if isinstance(c.func, ast.Attribute) and n in ("get", "keys", "values", "items", "copy", "strip", "split", "format", "join", "exists", "resolve"):
+    if n in _cfg.MOD_ATTRS and not _cfg.MOD_ATTRS[n] and n not in ("pop", "next"):
+        return True   # a package function that stores to no attribute (transitively): re-evaluating it changes nothing
+    if isinstance(c.func, ast.Attribute) and n in ("get", "keys", "values", "items", "copy", "strip", "split", "format", "join", "exists", "resolve", "index", "count"):
         return True
     if isinstance(c.func, ast.Name) and n in ("Priority", "Fraction", "Decimal", "RetryStats", "WaitingQueueJob", "PipelineStats", "CSVOperatorRow", "PipelineArrival"):
         return True   # constructor of a value object (objects with identity, e.g. Executor(...), are never substituted)
@@ -467,3 +469,40 @@ def inline_properties(P: Program, e: ast.expr, rel: str, cls: str, selfname: str
             if len(body) == 1 and isinstance(body[0], ast.Return) and body[0].value is not None:
                 env[f"{selfname}.{name}"] = norm.Subst({"self": ast.Name(selfname, ast.Load())}).visit(norm.clone(body[0].value))
     return norm.subst(e, env)
+
+
+def loop_env(lp: Optional[ast.AST]) -> Dict[str, ast.expr]:
+    """Per-iteration temporaries: names assigned exactly once (plain `name = expr`) inside the loop, whose right-hand side has
+    no side-effecting call and which are not containers filled later (subscript stores / mutator calls on them)."""
+    if lp is None:
+        return {}
+    cnt: Dict[str, int] = {}
+    env: Dict[str, ast.expr] = {}
+    mutated: Set[str] = set()
+    for n in ast.walk(lp):
+        if isinstance(n, ast.Assign) and len(n.targets) == 1 and isinstance(n.targets[0], ast.Name):
+            cnt[n.targets[0].id] = cnt.get(n.targets[0].id, 0) + 1
+            env[n.targets[0].id] = n.value
+        elif isinstance(n, ast.AugAssign) and isinstance(n.target, ast.Name):
+            cnt[n.target.id] = cnt.get(n.target.id, 0) + 2
+        elif isinstance(n, (ast.For, ast.comprehension)) and n is not lp:
+            for x in ast.walk(n.target):
+                if isinstance(x, ast.Name):
+                    cnt[x.id] = cnt.get(x.id, 0) + 2
+        if isinstance(n, (ast.Assign, ast.AugAssign, ast.Delete)):
+            for t in (n.targets if isinstance(n, (ast.Assign, ast.Delete)) else [n.target]):
+                for x in ast.walk(t):
+                    if isinstance(x, ast.Subscript):
+                        r = x.value
+                        while isinstance(r, (ast.Subscript, ast.Attribute)):
+                            r = r.value
+                        if isinstance(r, ast.Name):
+                            mutated.add(r.id)
+        if isinstance(n, ast.Call) and isinstance(n.func, ast.Attribute) and n.func.attr in MUTATORS:
+            r = n.func.value
+            while isinstance(r, (ast.Subscript, ast.Attribute)):
+                r = r.value
+            if isinstance(r, ast.Name):
+                mutated.add(r.id)
+    return {k: v for k, v in env.items() if cnt[k] == 1 and k not in mutated
+            and not any(isinstance(x, ast.Call) and not _pure_call(x) for x in ast.walk(v))}
